@@ -8,6 +8,8 @@ git -C $WT checkout -q --detach $(git -C /repo rev-parse HEAD) 2>/dev/null
 for d in "$@"; do
   id=$(basename $d); prop=${id%%_*}
   git -C $WT checkout -q -- . ; git -C $WT clean -fdq
+  # demos may hard-code the agent's worktree path: make it resolve to the scratch worktree
+  for alias in /tmp/wt/$prop /tmp/wt/${id}; do [ -e $alias ] || ln -sfn $WT $alias; done
   if [ ! -f $d/patch.diff ] || [ ! -f $d/demo.py ]; then echo "$id: MISSING files"; continue; fi
   (cd $WT && timeout 300 /venv/bin/python $d/demo.py >/tmp/vs_clean.log 2>&1); clean=$?
   if ! git -C $WT apply --check $d/patch.diff 2>/dev/null; then echo "$id: patch does not apply"; continue; fi
@@ -17,5 +19,6 @@ for d in "$@"; do
   chk=$(/verif/check $prop --repo $WT 2>&1 | grep -E "^VIOLATION|ANALYSIS-ERROR|exit [012]$|no rule module" | tail -1)
   nviol=$(/verif/check $prop --repo $WT 2>&1 | grep -c "^VIOLATION")
   git -C $WT checkout -q -- . ; git -C $WT clean -fdq
+  for alias in /tmp/wt/$prop /tmp/wt/${id}; do [ -L $alias ] && rm -f $alias; done
   echo "$id: demo_clean=$clean demo_mut=$mut tests=[$tests] check_violations=$nviol :: $chk"
 done
